@@ -100,6 +100,7 @@ def one_schema(args):
                         idb = bytes.fromhex(ident) if ident != "-" else None
                         v, dec = vtree.decode_root(bytes.fromhex(t[3]), tabs, uns, ("t", m["ti"]), m["ws"], idb, int(t[2]))
                         w = vtree.same(vtree.canon(low), v)
+                        e["graph"], e["root"] = dec.graph, dec.root       # the source's object graph by address (C18: clone model)
                         if w: e["why"] = "independent decoder: " + w
                         elif dec.seen_align > int(t[2]): e["why"] = "content needs alignment %d, builder reports %d" % (dec.seen_align, int(t[2]))
                     except vtree.FormatError as x:
